@@ -1065,7 +1065,7 @@ func fileFacts(repo string) {
 		}
 		notePkgObjs(af)
 		var inv []string
-		var body strings.Builder
+		var decls []string // normalised declarations; hashed in sorted order (moving a declaration is not a change)
 		for _, d := range af.Decls {
 			switch v := d.(type) {
 			case *ast.FuncDecl:
@@ -1092,8 +1092,7 @@ func fileFacts(repo string) {
 			}
 			normalise(d)
 			dd := d
-			body.WriteString(alphaSrc(func() string { return src(dd) }, dd))
-			body.WriteByte('\n')
+			decls = append(decls, alphaSrc(func() string { return src(dd) }, dd))
 		}
 		sort.Strings(inv)
 		var qi []string
@@ -1102,7 +1101,8 @@ func fileFacts(repo string) {
 		}
 		id := strings.NewReplacer("/", "_", ".go", "", ".", "_").Replace(f)
 		fmt.Fprintf(&out, "def inv_%s : List String := [%s]\n", id, strings.Join(qi, ", "))
-		h := sha256.Sum256([]byte(body.String()))
+		sort.Strings(decls)
+		h := sha256.Sum256([]byte(strings.Join(decls, "\n")))
 		fmt.Fprintf(&out, "def fileDigest_%s : String := %s\n", id, leanStr(hex.EncodeToString(h[:8])))
 	}
 }
